@@ -1,10 +1,14 @@
 use crate::fw::*;
 use serde_json::Value;
 
+pub mod c01;
 pub mod c02;
+pub mod c03;
 pub mod c04;
 pub mod c05;
+pub mod c06;
 pub mod c07;
+pub mod c08;
 pub mod c09;
 pub mod c10;
 pub mod c11;
@@ -12,6 +16,8 @@ pub mod c12;
 pub mod c13;
 pub mod c14;
 pub mod c15;
+pub mod c16;
+pub mod c17;
 pub mod c18;
 pub mod c19;
 pub mod c20;
@@ -34,10 +40,14 @@ macro_rules! table {
 }
 
 table! {
+    "C01" => c01,
     "C02" => c02,
+    "C03" => c03,
     "C04" => c04,
     "C05" => c05,
+    "C06" => c06,
     "C07" => c07,
+    "C08" => c08,
     "C09" => c09,
     "C10" => c10,
     "C11" => c11,
@@ -45,6 +55,8 @@ table! {
     "C13" => c13,
     "C14" => c14,
     "C15" => c15,
+    "C16" => c16,
+    "C17" => c17,
     "C18" => c18,
     "C19" => c19,
     "C20" => c20,
